@@ -3,7 +3,8 @@
   Property theorems about
     Relic.Model.Merkle      (signers/apk/merkle.go: merkleHasher.Write / flush / Finish),
     Relic.Model.PEChecksum  (lib/authenticode/checksum.go: peChecksum),
-    Relic.Model.Transport   (cmdline/remotecmd/client.go: doRequest; lib/compresshttp: selectEncoding;
+    Relic.Model.Transport   (cmdline/remotecmd/client.go: doRequest; lib/compresshttp: selectEncoding,
+                             CompressRequest's error path;
                              signers/transform.go: fileProducer.GetReader).
   Helper lemmas: Relic/Proofs/{Merkle,PEChecksum,Transport}.lean.
 -/
@@ -223,6 +224,69 @@ example : doRequest [1, 2, 3] "x-snappy-framed, gzip".toList [0, 1] 3
       [.neterr true, .status 406, .status 503, .status 200]
     = .ok ([⟨0, "x-snappy-framed, gzip".toList, snappy, [1, 2, 3]⟩, ⟨1, "x-snappy-framed, gzip".toList, snappy, [1, 2, 3]⟩,
             ⟨0, [], [], [1, 2, 3]⟩, ⟨1, [], [], [1, 2, 3]⟩], .response 200 1) := by decide
+
+/-- **fault_never_accepted.** (unchanged code: `compress`'s error goes to `pw.CloseWithError`)
+    Whenever `doRequest` terminates with a list of attempts,
+    * an attempt whose source reader fails after `k` bytes — for every `k`, every classification of the
+      error and whatever Content-Encoding was selected — makes `cli.cli.Do` return that error, and no
+      cleanly ended body reaches a handler (so no handler can digest, sign and answer 2xx for a prefix);
+    * a body that does reach a handler with a clean end is the whole file, and the event of that
+      attempt is an answer of the server, not a source fault;
+    * `doRequest` returns a response only when the *last* attempt's event is a status below 300: never
+      an attempt whose source faulted. -/
+theorem fault_never_accepted (file : Bytes) (encs : Str) (bases : List Nat) (retries : Int)
+    (script : List Outcome) (tr : List Attempt) (f : Final)
+    (h : doRequest file encs bases retries script = .ok (tr, f)) :
+    (∀ a ∈ tr, ∀ k t, roundTrip a.enc file (.srcFault k t) = (.error t, .aborted)) ∧
+    (∀ a ∈ tr, ∀ o body, (roundTrip a.enc file o).2 = .complete body → body = file ∧ ∃ c, o = .status c) ∧
+    (∀ c s, f = .response c s →
+        tr ≠ [] ∧ script.getD (tr.length - 1) (.status 200) = .status c ∧ c < 300) := by
+  refine ⟨fun a _ k t => roundTrip_srcFault a.enc file k t,
+          fun a _ o body hb => roundTrip_complete a.enc file o body hb, ?_⟩
+  intro c s hf
+  subst hf
+  unfold doRequest at h
+  split at h
+  · simp at h
+  · next bs hbs =>
+    simp only [] at h
+    split at h
+    · next f' hf' =>
+      injection h with h; injection h with h1 h2
+      subst h1; subst h2
+      exact pass_response file encs bs script c s hf'
+    · next hre =>
+      split at h
+      · next f' hf' =>
+        injection h with h; injection h with h1 h2
+        subst h1; subst h2
+        obtain ⟨i1, i2, i3⟩ := pass_response file [] bs _ c s hf'
+        rw [pass_consumed file encs bs script] at i2
+        have hpos : 0 < (pass file [] bs (pass file encs bs script).2.2).1.length := List.length_pos_iff.mpr i1
+        refine ⟨by simp [i1], ?_, i3⟩
+        rw [getD_drop] at i2
+        rw [List.length_append]
+        have e : (pass file encs bs script).1.length + (pass file [] bs (pass file encs bs script).2.2).1.length - 1
+            = (pass file encs bs script).1.length + ((pass file [] bs (pass file encs bs script).2.2).1.length - 1) := by omega
+        rw [e, pass_consumed file encs bs script]; exact i2
+      · simp at h
+
+/-- a single attempt, any encoding: the source fails after `k` bytes ⇒ transport error, nothing accepted -/
+theorem fault_is_transport_error (enc : Str) (file : Bytes) (k : Nat) (t : Bool) :
+    roundTrip enc file (.srcFault k t) = (.error t, .aborted) ∧
+    bodyEnd enc (sourceOf file (.srcFault k t)).2 ≠ .eof := by
+  refine ⟨roundTrip_srcFault enc file k t, ?_⟩
+  rw [srcFault_bodyEnd]; simp
+
+-- snappy negotiated; the source of the first upload breaks after 2 of 3 bytes with a temporary error:
+-- the first server accepts nothing, the second one gets the whole file
+example : doRequest [1, 2, 3] snappy [0, 1] 0 [.srcFault 2 true, .status 200]
+    = .ok ([⟨0, snappy, snappy, [1, 2, 3]⟩, ⟨1, snappy, snappy, [1, 2, 3]⟩], .response 200 1) := by decide
+-- a permanent fault ends the request with an error
+example : doRequest [1, 2, 3] snappy [0, 1] 0 [.srcFault 0 false, .status 200]
+    = .ok ([⟨0, snappy, snappy, [1, 2, 3]⟩], .netError) := by decide
+example : roundTrip snappy [1, 2, 3] (.srcFault 2 false) = (.error false, .aborted) := by decide
+example : roundTrip snappy [1, 2, 3] (.status 200) = (.response 200, .complete [1, 2, 3]) := by decide
 
 /-- **failover_after_406_uncompressed.** Once a server has answered 406 to a request that advertised
     encodings, every later attempt is made without Accept-Encoding and with an unencoded body, and
